@@ -926,6 +926,9 @@ MUST = [
     "merge_inner_sfx", "merge_left_sfx", "merge_outer_sfx", "merge_inner_proj", "merge_left_filt", "merge_right_filt_r", "merge_outer_filt",
     "merge_index", "concat", "concat_proj", "concat_axis1", "binop_LL", "binop_filter_other", "where", "two_shifts", "two_diffs_frame",
     "shared_filter_sum", "shared_two_consumers",
+    "concat_parts_axis1", "concat_parts_axis0", "add_parts_broadcast", "parts_of_elemwise", "parts_of_shuffle",
+    "nested_fused", "nested_fused_deps", "nested_fused_deps3", "upper_first_shared_stage", "stage_first_shared_stage",
+    "assign_overwrite_shared", "assign_overwrite_concat", "two_reparts_up", "two_reparts_mixed",
     "dropna_c/gb_sum", "dropna_c/gb_count", "dropna/gb_agg", "dropna_c/col0", "dropna_c/sum",
     "rename_aA/rename_aA/col0", "rename_aA/col0", "rename_aA/filt_a/col0", "prefix/suffix/col0",
     "set_index_a/prefix/col0", "set_index_a/suffix/col0", "set_index_a/rename_aA/col0", "set_index_a/filt_or/col0",
@@ -1070,7 +1073,8 @@ def _run_case_safe(case):
         return {"status": "harness-error", "program": case["program"], "why": traceback.format_exc()[-600:], "stages": 0}
 
 
-_KNOWN_DIVISIONS_ONLY = {"x:add_repartitioned_proj", "x:add_repartitioned_col"}  # alignment needs known divisions
+_KNOWN_DIVISIONS_ONLY = {"x:add_repartitioned_proj", "x:add_repartitioned_col", "concat_parts_axis1", "concat_parts_axis0",
+                         "add_parts_broadcast", "parts_of_elemwise"}  # alignment needs known divisions
 
 
 def support_cases(ctx, broken):
@@ -1090,7 +1094,7 @@ def support_cases(ctx, broken):
                 break
         for i, n in enumerate(must):
             # both methods and a known-/unknown-divisions layout alternate over the must-run list
-            lay = (0, 2)[i % 2] if n in _KNOWN_DIVISIONS_ONLY else (0, 3, 1, 4)[i % 4]
+            lay = 0 if n in _KNOWN_DIVISIONS_ONLY else (0, 3, 1, 4)[i % 4]
             cases.append({"program": n, "layout": lay, "method": METHODS[i % 2]})
         for i, n in enumerate(sorted(sel)):
             cases.append({"program": n, "layout": i % nl, "method": METHODS[(i // nl) % 2]})
